@@ -1,4 +1,5 @@
 import collections
+import copy
 import os
 import struct
 import sys
@@ -57,6 +58,10 @@ class Compiler:
 
         try:
             for insn in block.insns:
+                if state["context"] == "repeat" and isinstance(insn, (Instruction, WordList)):
+                    # Each copy of a '.repeat' body gets its own tokens, because compilation caches values
+                    # on tokens (e.g. './2') and rewrites operand trees in place (hoisting, label fixup)
+                    insn = copy.deepcopy(insn)
                 state = {**state, "insn": insn, "emit_address": addr, "local_symbol_prefix": local_symbol_prefix}
                 if isinstance(insn, Instruction):
                     chunk = self.compile_insn(insn, state)
